@@ -227,11 +227,50 @@ def find_point(formula, names=None, box=BOX):
     return pt
 
 
+XCHECKS = 0
+
+
+def _conj_terms(f):
+    """the RT list of a pure conjunction of exact 'le' atoms, else None"""
+    if f[0] == "le":
+        return [f[1]] if f[2] == 0 else None
+    if f[0] == "true":
+        return []
+    if f[0] != "and":
+        return None
+    out = []
+    for g in f[1]:
+        r = _conj_terms(g)
+        if r is None:
+            return None
+        out += r
+    return out
+
+
 def implied(hyp_formula, concl_terms, names=None):
-    """None if no box point satisfies hyp and breaks some conclusion term by > tol; else the witness."""
+    """None if no box point satisfies hyp and breaks some conclusion term by > tol; else the witness.
+    Conjunctive queries over <= 3 variables are re-decided on a deterministic 1-in-8 slice (all of them when
+    PV_XCHECK=all) by exact vertex enumeration in pure Fraction arithmetic; a disagreement is a harness error."""
+    global XCHECKS
     if not concl_terms:
         return None
-    return find_point(AND(hyp_formula, broken(concl_terms)), names)
+    w = find_point(AND(hyp_formula, broken(concl_terms)), names)
+    hy = _conj_terms(hyp_formula)
+    if hy is not None:
+        ns = sorted(set(names_of(hy, concl_terms)) | set(names or ()))
+        if 1 <= len(ns) <= 3 and (_XALL or (QUERIES % 8 == 0)):
+            from . import fracpoly
+
+            XCHECKS += 1
+            v = fracpoly.max_violation(hy, concl_terms, ns, BOX, tol_of)
+            if v != (w is not None):
+                raise OracleError("z3 and the Fraction vertex enumerator disagree on an implication query")
+    return w
+
+
+import os as _os
+
+_XALL = _os.environ.get("PV_XCHECK") == "all"
 
 
 def feasible(terms, box=None):
